@@ -39,7 +39,7 @@ def custom_dir(root: str) -> str:
     os.makedirs(os.path.join(root, "other"))
     for d in ("only/zz", "only/aa", "only/mm/deeper"):         # a level with nothing but sub-directories
         os.makedirs(os.path.join(root, d))
-        with open(os.path.join(root, d, "dup.words"), "wb") as f:
+        with open(os.path.join(root, d, d.split("/")[1] + "-list.words"), "wb") as f:      # same words, a different label per directory
             f.write(b"strlen\nkernel32\n" + d.encode() + b"\n")
     files = {"a.words": b"#tag\nstrlen\nStrLen\nSTRLEN\nGetProcAddress\n; note\n", "sub/b.words": b"strlen\ngetprocaddress\n",
              "sub/deep/a.words": b"StrLen\nevil\n", "other/c.words": b"evil\nEvil\nstrlen\n", "z.words": b"evil\n"}
